@@ -246,14 +246,20 @@ pub fn run(ctx: &mut Ctx) {
         let a = foreign(true);
         act(a);
     })));
-    let rw = Arc::new(RecvWaker(AtomicU64::new(0)));
-    let waker = futures::task::waker(rw.clone());
-    let mut cx = Context::from_waker(&waker);
+    // The receiver's waker. A recv future may be polled by one task, dropped, and the next one
+    // polled by another task: the queue must wake whoever polled it LAST. In runs with
+    // `change_waker` the receiver now and then comes back with a new waker, and only wake-ups of
+    // the current one count (wake-ups of an earlier one reach nobody).
+    let change_waker = ctx.plan(3) == 2;
+    let rw_cell: std::rc::Rc<RefCell<Arc<RecvWaker>>> = std::rc::Rc::new(RefCell::new(Arc::new(RecvWaker(AtomicU64::new(0)))));
     let mut seen = 0u64;
     let mut parked = false;
     let mut violations: Vec<(&'static str, String)> = Vec::new();
 
     let mut poll_once = |probe: &mut FairQueueProbe<Scripted, u8>, seen: &mut u64, parked: &mut bool, violations: &mut Vec<(&'static str, String)>, fairness_bound: Option<u64>| -> bool {
+        let rw = rw_cell.borrow().clone();
+        let waker = futures::task::waker(rw.clone());
+        let mut cx = Context::from_waker(&waker);
         *seen = rw.0.load(Ordering::SeqCst);
         w(|w| w.in_poll = true);
         let r = std::panic::catch_unwind(std::panic::AssertUnwindSafe(|| probe.poll_next(&mut cx)));
@@ -324,10 +330,18 @@ pub fn run(ctx: &mut Ctx) {
 
     // ---- phase 1: chaos -------------------------------------------------------------------------
     for _ in 0..chaos {
-        let woken = rw.0.load(Ordering::SeqCst) != seen;
-        let can_poll = !parked || woken || (allow_spurious && rt::draw_rare(Tape::Sched, 2, 1, 20) == 1);
+        // another task takes over the receiving end: a new recv call is a poll whether or not
+        // anybody was woken, under a new waker
+        let takeover = change_waker && rt::draw_rare(Tape::Sched, 2, 1, 8) == 1;
+        if takeover {
+            *rw_cell.borrow_mut() = Arc::new(RecvWaker(AtomicU64::new(0)));
+            seen = 0;
+            rt::count("fault_receiver_changes_waker");
+        }
+        let woken = rw_cell.borrow().0.load(Ordering::SeqCst) != seen;
+        let can_poll = takeover || !parked || woken || (allow_spurious && rt::draw_rare(Tape::Sched, 2, 1, 20) == 1);
         let d = rt::draw(Tape::Sched, 3);
-        if can_poll && d != 2 {
+        if can_poll && (takeover || d != 2) {
             poll_once(&mut probe, &mut seen, &mut parked, &mut violations, None);
         } else {
             act(foreign(false));
@@ -382,7 +396,7 @@ pub fn run(ctx: &mut Ctx) {
         let mut guard = 0;
         loop {
             guard += 1;
-            let woken = rw.0.load(Ordering::SeqCst) != seen;
+            let woken = rw_cell.borrow().0.load(Ordering::SeqCst) != seen;
             if parked && !woken {
                 break;
             }
@@ -401,7 +415,7 @@ pub fn run(ctx: &mut Ctx) {
     let mut guard = 0;
     loop {
         guard += 1;
-        let woken = rw.0.load(Ordering::SeqCst) != seen;
+        let woken = rw_cell.borrow().0.load(Ordering::SeqCst) != seen;
         if parked && !woken {
             break;
         }
